@@ -64,6 +64,14 @@ class BoundMethod:
         return self.func
 
 
+class EngineFn:
+    """A callable implemented by the engine (takes and returns engine values)."""
+    __slots__ = ('fn',)
+
+    def __init__(self, fn):
+        self.fn = fn
+
+
 class SymMethod:
     __slots__ = ('recv', 'name')
 
@@ -255,6 +263,8 @@ class Interp:
         self.loop_guards = []
         from . import strings as _strings
         st.on_fact = lambda t: _strings.learn(self, t)
+        self.loop_index_stack = []     # index terms of the enclosing symbolic loops (arbitrary iteration)
+        self.collect = None            # (code object, YSeq): the generator function under verification
 
     def current_function_name(self):
         return self.fn_name
@@ -349,6 +359,12 @@ class Interp:
         loc = self.bind_args(info, defaults, kwdefaults, args, kwargs)
         first = args[0] if args else None
         frame = Frame(info, loc, enclosing, first, defcls)
+        if info.is_generator and self.collect is not None and self.collect[0] is info and not self.collect[2]:
+            # the generator under verification: its body runs here, yields go to the ghost sequence
+            from .gens import CollectGen
+            self.collect[2] = True
+            frame.gen = CollectGen(self, self.collect[1])
+            return self._run_body(frame)
         if info.is_generator:
             def runner(gen, frame=frame):
                 frame.gen = gen
@@ -399,6 +415,8 @@ class Interp:
         if isinstance(f, types.MethodType):
             return self.call_function_object(f.__func__, [f.__self__] + list(args), kwargs, None,
                                              bound_self=f.__self__)
+        if isinstance(f, EngineFn):
+            return f.fn(*args, **kwargs)
         if isinstance(f, SymMethod):
             from . import models
             return models.call_sym_method(self, f.recv, f.name, list(args), kwargs)
@@ -522,6 +540,17 @@ class Interp:
 
     # ======================================================================= attributes
     def getattr(self, obj, name):
+        if isinstance(obj, SList) and name in ('src', 'pos_of', 'source', 'perm', 'inv'):
+            from .gens import YSeq
+            from .seqs import FilteredSList, SortedSList
+            if isinstance(obj, (FilteredSList, SortedSList)) and name == 'source':
+                return obj.source
+            if isinstance(obj, SortedSList) and name in ('perm', 'inv'):
+                fn = obj.perm_fn if name == 'perm' else obj.inv_fn
+                return EngineFn(lambda k, fn=fn: wrap(fn(to_z3(k))))
+            if isinstance(obj, (YSeq, FilteredSList)) and name in ('src', 'pos_of'):
+                fn = obj.src_fn if name == 'src' else obj.pos_fn
+                return EngineFn(lambda k, fn=fn: wrap(fn(to_z3(k))))
         if isinstance(obj, Sym):
             if isinstance(obj, (SOpt, SChoice)):
                 return self.getattr(self.resolve(obj), name)
@@ -529,8 +558,14 @@ class Interp:
         if isinstance(obj, Opaque):
             return self.reg.opaque_getattr(self, obj, name)
         from . import models as _models
+        if isinstance(obj, _models.SIter):
+            if name == 'pos':
+                return wrap(to_z3(obj.pos)) if not isinstance(obj.pos, int) else obj.pos
+            if name == 'xs':
+                return obj.xs
         if isinstance(obj, (_models.SMap, _models.SIter)):
             return SymMethod(obj, name)
+
         if isinstance(obj, SuperProxy):
             mro = type(obj.obj).__mro__ if not isinstance(obj.obj, type) else obj.obj.__mro__
             i = mro.index(obj.cls)
@@ -1255,7 +1290,8 @@ class Interp:
             src = self.eval(node.generators[0].iter, frame)
             if isinstance(src, (SOpt, SChoice)):
                 src = self.resolve(src)
-            if isinstance(src, SList):
+            from . import models as _models
+            if isinstance(src, (SList, _models.SIter, _models.SEnumerate)):
                 from . import seqs
                 return seqs.map_comprehension(self, node, frame, src)
             out = []
@@ -1297,6 +1333,18 @@ class Interp:
             return None
 
         first_iter = self.eval(node.generators[0].iter, frame)
+        if isinstance(first_iter, (SOpt, SChoice)):
+            first_iter = self.resolve(first_iter)
+        from . import models as _models
+        if isinstance(first_iter, (SList, _models.SIter, _models.SEnumerate)):
+            if len(node.generators) == 1 and not node.generators[0].ifs:
+                # element-wise image of a symbolic sequence (evaluated eagerly: the body must be pure)
+                from . import seqs
+                return _models.SIter(seqs.map_comprehension(self, node, frame, first_iter), 0)
+            if len(node.generators) == 1:
+                from . import seqs
+                return _models.SIter(seqs.filter_comprehension(self, node, frame, first_iter), 0)
+            raise Unsupported('nested generator expression over a symbolic sequence')
         node_gens = node.generators
 
         def runner2(gen):
@@ -1495,6 +1543,9 @@ class Interp:
         from . import models
         if isinstance(obj, models.SMap):
             return obj.setitem(self, idx, value)
+        from .mlist import MList
+        if isinstance(obj, MList):
+            return obj.setitem(self, idx, value)
         if contains_sym(idx, 0):
             raise Unsupported('store with symbolic index/key')
         si = _static_lookup(type(obj), '__setitem__')
@@ -1517,6 +1568,12 @@ class Interp:
                 from . import models
                 if isinstance(obj, models.SMap):
                     obj.delitem(self, idx)
+                    continue
+                from .mlist import MList
+                if isinstance(obj, MList) and isinstance(idx, int) and idx == 0:
+                    if not self.st.fork(wrap(obj.length > 0)):
+                        raise PyRaise(IndexError('list assignment index out of range'))
+                    obj.delete_first(self)
                     continue
                 if contains_sym(idx, 0) or isinstance(obj, (Sym, Opaque)):
                     raise Unsupported('del with symbolic operand')
